@@ -7,9 +7,18 @@ using namespace datasketches;
 namespace vf {
 
 struct KllFam {
-  typedef kll_sketch<c08::Item> SK;
+  typedef kll_sketch<c08::Item, c08::Cmp> SK;
   static const char* name() { static const std::string n = std::string("kll") + c08::item_tag(); return n.c_str(); }
-  static SK make(int cfg) { return SK(static_cast<uint16_t>(cfg)); }
+  static SK make(int cfg) {
+    SK fresh = SK(static_cast<uint16_t>(cfg), c08::cmp_instance());
+#if defined(C08_CMP_DESC)
+    // history 'serialize an empty sketch -> deserialize with the comparator instance -> keep using it' for 2 of 3 sketches
+    const unsigned mode = static_cast<unsigned>((c08::make_salt() + c08::make_seq()++) % 3);
+    if (mode == 1) { auto b = fresh.serialize(); return SK::deserialize(b.data(), b.size(), serde<c08::Item>(), c08::cmp_instance()); }
+    if (mode == 2) { std::stringstream ss(std::ios::in | std::ios::out | std::ios::binary); fresh.serialize(ss); return SK::deserialize(ss, serde<c08::Item>(), c08::cmp_instance()); }
+#endif
+    return fresh;
+  }
   static std::string cfg_text(int cfg) { return "k=" + std::to_string(cfg); }
   static bool allow_rt() { return false; }
   static int len_quantum(int cfg) { (void)cfg; return 0; }
@@ -22,10 +31,10 @@ struct KllFam {
   static SK roundtrip_image(const SK& s, bool) { return s; }
 #else
   static SK roundtrip_image(const SK& s, bool bytes) {
-    if (bytes) { auto b = s.serialize(); return SK::deserialize(b.data(), b.size()); }
+    if (bytes) { auto b = s.serialize(); return SK::deserialize(b.data(), b.size(), serde<c08::Item>(), c08::cmp_instance()); }
     std::stringstream ss(std::ios::in | std::ios::out | std::ios::binary);
     s.serialize(ss);
-    return SK::deserialize(ss);
+    return SK::deserialize(ss, serde<c08::Item>(), c08::cmp_instance());
   }
 #endif
   static std::string published_error_text(const SK& s) { return "eps=" + str(s.get_normalized_rank_error(false)) + " eps_pmf=" + str(s.get_normalized_rank_error(true)); }
@@ -79,6 +88,7 @@ static const uint64_t NDBL = VARIANT ? 0 : 2;
 uint64_t num_cases(bool thorough) { return static_cast<uint64_t>(thorough ? NEXH_T : NEXH_Q) + cells(thorough).size() + NDBL; }
 
 void run_case(uint64_t idx, Rng& r) {
+  c08::make_salt() = idx; c08::make_seq() = 0;
   const bool T = G().thorough();
   const uint64_t nexh = static_cast<uint64_t>(T ? NEXH_T : NEXH_Q);
   if (idx < nexh) {
